@@ -968,7 +968,8 @@ def m_from_bytes(I, st, call):
 @model("<&u16 as core::ops::arith::Sub<u16>>::sub", "<&usize as core::ops::arith::Sub<usize>>::sub",
        "<&u16 as core::ops::arith::Sub<&u16>>::sub", "<u16 as core::ops::arith::Sub<&u16>>::sub")
 def m_ref_sub(I, st, call):
-    a, b = deref(I, st, call.args[0]), deref(I, st, call.args[1])
+    a = deref_mat(I, st, call.args[0], call.arg_tys[0], "lhs")
+    b = deref_mat(I, st, call.args[1], call.arg_tys[1], "rhs")
     it = I.int_ty(call.dest_ty)
     if not (isinstance(a, IntV) and isinstance(b, IntV)):
         I.note("call:arith", call.site, False, "operator impl on untracked operands")
@@ -976,7 +977,7 @@ def m_ref_sub(I, st, call):
     e = a.aff - b.aff
     lo, hi = int_range(it)
     ok = holds(st, ("ovf", e, lo, hi), False)
-    I.note("call:arith:Sub", call.site, ok, None if ok else "subtraction may overflow: %r" % (e,), operands=(a.aff, b.aff))
+    I.note("call:arith:Sub", call.site, ok, None if ok else "subtraction may overflow: %r" % (e,), st, operands=(a.aff, b.aff))
     out = []
     for s in assume(st, ("ovf", e, lo, hi), False):
         out.append((s, IntV(e, it)))
@@ -986,7 +987,8 @@ def m_ref_sub(I, st, call):
 @model("<usize as core::ops::bit::Shl<&usize>>::shl", "<usize as core::ops::bit::Shl<usize>>::shl",
        "<i32 as core::ops::bit::Shl<&usize>>::shl")
 def m_ref_shl(I, st, call):
-    a, b = deref(I, st, call.args[0]), deref(I, st, call.args[1])
+    a = deref_mat(I, st, call.args[0], call.arg_tys[0], "lhs")
+    b = deref_mat(I, st, call.args[1], call.arg_tys[1], "rhs")
     it = I.int_ty(call.dest_ty)
     if not (isinstance(a, IntV) and isinstance(b, IntV)):
         I.note("call:arith", call.site, False, "operator impl on untracked operands")
@@ -996,8 +998,134 @@ def m_ref_shl(I, st, call):
     I.note("call:arith:Shl", call.site, ok, None if ok else "shift amount may reach the bit width: %r" % (b.aff,))
     out = []
     for s in assume(st, ("cmp", "Lt", b.aff, Aff.const(w)), True):
+        if a.aff.is_const() and a.aff.c == 1 and not b.aff.is_const():
+            # 1 << n: partition n == 0 (result 1) / n >= 1 (result even, >= 2)
+            s0 = s.copy()
+            s0.add_eq(b.aff, Aff.const(0))
+            if not s0.dead:
+                out.append((s0, IntV(Aff.const(1), it)))
+            s.add_fact(b.aff - 1)
+            if not s.dead:
+                r = I.binop(call.ctx, s, "Shl", a, b, call.dest_ty, call.site)
+                out.append((s, r))
+            continue
         out.append((s, I.binop(call.ctx, s, "Shl", a, b, call.dest_ty, call.site)))
     return out
+
+
+def _run_local_method(I, st, call, trait, name, args):
+    self_ty = call.gargs[0] if call.gargs else None
+    rhs = call.gargs[1] if len(call.gargs) > 1 else self_ty
+    if self_ty is None:
+        return None
+    b, m = I.prog.find_impl_method(trait, self_ty, (rhs,), name)
+    if b is None:
+        b, m = I.prog.find_impl_method(trait, self_ty, None, name)
+    if b is None:
+        return None
+    names = b.get("generics", [])
+    ga = tuple(m.get(x, ("param", x)) for x in names)
+    return I.exec_body(b, ga, args, st, call.ctx, (call.site["bb"], name))
+
+
+@model("core::cmp::PartialEq::ne")
+def m_ne(I, st, call):
+    rs = _run_local_method(I, st, call, "core::cmp::PartialEq", "eq", call.args)
+    if rs is None:
+        return None
+    out = []
+    for s, rv in rs:
+        rv = I.as_int(s, rv, BOOL, "eq")
+        c = rv.cond if rv.cond is not None else ("cmp", "Ne", rv.aff, Aff.const(0))
+        if holds(s, c, True):
+            out.append((s, boolv(False)))
+        elif holds(s, c, False):
+            out.append((s, boolv(True)))
+        else:
+            out.append((s, IntV(Aff.const(1) - rv.aff, BOOL, cond=("not", c))))
+    return out
+
+
+@model("core::cmp::PartialOrd::ge", "core::cmp::PartialOrd::gt", "core::cmp::PartialOrd::le", "core::cmp::PartialOrd::lt")
+def m_partial_ord_default(I, st, call):
+    rs = _run_local_method(I, st, call, "core::cmp::PartialOrd", "partial_cmp", call.args)
+    if rs is None:
+        return None
+    # Ordering: Less=-1 (variant 0), Equal=0 (1), Greater=1 (2)
+    accept = {"ge": (1, 2), "gt": (2,), "le": (0, 1), "lt": (0,)}[call.name]
+    out = []
+    for s, rv in rs:
+        sp = split_variants(I, s, rv, None, "ord")
+        if sp is None:
+            out.append((s, I.mat(s, ("bool",), "ord")))
+            continue
+        for s2, vi, p in sp:
+            if vi == 0:
+                out.append((s2, boolv(False)))
+                continue
+            inner = p.fields[0]
+            sp2 = split_variants(I, s2, inner, ("adt", "core::cmp::Ordering", (), "enum"), "ordering")
+            if sp2 is None:
+                out.append((s2, I.mat(s2, ("bool",), "ord")))
+                continue
+            for s3, oi, _ in sp2:
+                out.append((s3, boolv(oi in accept)))
+    return out
+
+
+@prefix_model("core::cmp::impls::<impl core::cmp::PartialOrd for", "core::cmp::impls::<impl core::cmp::Ord for")
+def m_int_cmp(I, st, call):
+    a = deref_mat(I, st, call.args[0], call.arg_tys[0], "a")
+    b = deref_mat(I, st, call.args[1], call.arg_tys[1], "b")
+    if not (isinstance(a, IntV) and isinstance(b, IntV)):
+        return None
+    is_partial = call.name == "partial_cmp"
+    if call.name not in ("partial_cmp", "cmp"):
+        return None
+    out = []
+    for vi, cond in ((0, ("cmp", "Lt", a.aff, b.aff)), (1, ("cmp", "Eq", a.aff, b.aff)), (2, ("cmp", "Gt", a.aff, b.aff))):
+        s2 = st.copy()
+        for s3 in assume(s2, cond, True):
+            o = EnumV("core::cmp::Ordering", {vi: StructV([])})
+            out.append((s3, mk_option(I, o, call.dest_ty) if is_partial else o))
+    return out
+
+
+@prefix_model("core::cmp::impls::<impl core::cmp::PartialEq<&B> for &A>::")
+def m_ref_eq(I, st, call):
+    # &A == &B delegates to A == B
+    a, b = call.args
+    if isinstance(a, RefV) and isinstance(b, RefV):
+        ia, ib = I.read(st, a.place), I.read(st, b.place)
+        aty = pointee(call.arg_tys[0])
+        inner_ty = pointee(aty)
+        bty = pointee(pointee(call.arg_tys[1]))
+        if inner_ty is not None:
+            bd, m = I.prog.find_impl_method("core::cmp::PartialEq", inner_ty, (bty,) if bty else None, "eq")
+            if bd is not None and isinstance(ia, RefV) and isinstance(ib, RefV):
+                names = bd.get("generics", [])
+                ga = tuple(m.get(x, ("param", x)) for x in names)
+                rs = I.exec_body(bd, ga, [ia, ib], st, call.ctx, (call.site["bb"], "eq"))
+                if call.name == "ne":
+                    return [(s, _negate(I, s, rv)) for s, rv in rs]
+                return rs
+            # primitives
+            if isinstance(ia, RefV) and isinstance(ib, RefV):
+                va, vb = I.read(st, ia.place), I.read(st, ib.place)
+                if isinstance(va, IntV) and isinstance(vb, IntV):
+                    r = I.binop(call.ctx, st, "Eq" if call.name == "eq" else "Ne", va, vb, inner_ty, call.site)
+                    return [(st, r)]
+    return None
+
+
+def _negate(I, s, rv):
+    rv = I.as_int(s, rv, BOOL, "eq")
+    c = rv.cond if rv.cond is not None else ("cmp", "Ne", rv.aff, Aff.const(0))
+    if holds(s, c, True):
+        return boolv(False)
+    if holds(s, c, False):
+        return boolv(True)
+    return IntV(Aff.const(1) - rv.aff, BOOL, cond=("not", c))
 
 
 @model("core::hint::must_use")
